@@ -124,16 +124,14 @@ Definition pair_assign_spec (dk sk sc : ty) : option bool :=
   | _, _, _ => Some false
   end.
 
-(* [tuple.creation] tuple_cat: element i of the result has the declared type of the corresponding operand
-   element and is initialised with get<k>(std::forward<T>(tp)) *)
+(* [tuple.creation] tuple_cat: the result is tuple<CTypes...>, CTypes the element types of all operands in order
+   (see the end of this file for how the elements are initialised) *)
 Definition cat_result_kind_spec (k : ty) : ty := k.
 Definition cat_single_nested_arity_spec (inner_arity : nat) : nat := 1%nat.
 Definition moved_from (c : ty) : bool :=
   match rf c, cst c with RR, false => true | _, _ => false end.
-Definition tuple_cat_t_spec (ts : list toperand) : option (list (Z * bool)) :=
-  map_opt (fun x => x)
-    (concat (map (fun o : toperand =>
-                    map (fun e : telem => do g <- get_spec (fst o) (fst e); Some (snd e, moved_from g)) (snd o)) ts)).
+(* [tuple.helper] tuple_element_t<I, tuple<Types...>> is Types_I, cv-qualifiers and references included *)
+Definition tuple_element_kind_spec (k : ty) : ty := k.
 
 (* ================================================================================================ *)
 (** * (i) values *)
@@ -148,6 +146,31 @@ Definition lex_lt (l r : A * A) : Prop :=
   lt (fst l) (fst r) = true \/ (equiv (fst l) (fst r) /\ lt (snd l) (snd r) = true).
 Definition lex_equiv (l r : A * A) : Prop := equiv (fst l) (fst r) /\ equiv (snd l) (snd r).
 End Values.
+
+(* [alg.sorting]/4: a strict weak ordering: irreflexive, transitive, and incomparability is transitive *)
+Definition strict_weak {A : Type} (lt : A -> A -> bool) : Prop :=
+  (forall a, lt a a = false) /\
+  (forall a b c, lt a b = true -> lt b c = true -> lt a c = true) /\
+  (forall a b c, equiv lt a b -> equiv lt b c -> equiv lt a c).
+
+(* [pairs.spec] in C++20: the relational operators are synthesised from
+     operator<=>: if (auto c = synth-three-way(x.first, y.first); c != 0) return c; return synth-three-way(x.second, y.second);
+   x < y iff (x <=> y) < 0, x <= y iff (x <=> y) <= 0, ...  With a partial ordering (floating-point NaN) the result can be
+   unordered, and then all four relations are false. *)
+Inductive pord := PLess | PEquiv | PGreater | PUnordered.
+Definition pord_flip (c : pord) : pord := match c with PLess => PGreater | PGreater => PLess | c => c end.
+Definition pair_cmp3_spec {A : Type} (cmp : A -> A -> pord) (l r : A * A) : pord :=
+  match cmp (fst l) (fst r) with PEquiv => cmp (snd l) (snd r) | c => c end.
+Definition is_lt (c : pord) : bool := match c with PLess => true | _ => false end.
+Definition is_le (c : pord) : bool := match c with PLess | PEquiv => true | _ => false end.
+Definition is_gt (c : pord) : bool := match c with PGreater => true | _ => false end.
+Definition is_ge (c : pord) : bool := match c with PGreater | PEquiv => true | _ => false end.
+(* doubles with NaN, abstractly: None is NaN *)
+Definition ocmp (a b : option Z) : pord :=
+  match a, b with
+  | Some x, Some y => if x <? y then PLess else if y <? x then PGreater else PEquiv
+  | _, _ => PUnordered
+  end.
 
 (* tuple_cat on values: the concatenation of the operands *)
 Definition tuple_cat_spec {A} (ts : list (list A)) : list A := concat ts.
@@ -170,7 +193,8 @@ Definition step_s (stateless : list Z) (n : nat) (a : astate) (o : op) : astate 
   | OMoveAssign w v | OMoveCtor w v =>
       if Nat.eqb w v then (a, TAck)
       else (aset (aset a w (slots a v)) v None, TAck)      (* move transfers: the source becomes empty *)
-  | OReset w | OCtorNull w => (aset a w None, TAck)
+  | OReset w | OCtorNull w | OAssignNullFn w | OCtorNullFn w =>
+      (aset a w None, TAck)                               (* nullptr, and a null function / member pointer, is no target *)
   | OSwap w v => (aset (aset a w (slots a v)) v (slots a w), TAck)   (* swap exchanges *)
   | OCall w arg =>
       match slots a w with
@@ -294,3 +318,77 @@ Definition forward_as_tuple_spec (a : ty) : option (ty * built) :=
   | RR => Some (mkty (cst a) RR, Aliased)
   | RNone => None
   end.
+
+(* ================================================================================================ *)
+(** * the call wrappers with any number of arguments *)
+(* [func.require]/4 perfect forwarding call wrappers (not_fn, bind_front): the target and the bound arguments (decay
+   copies) are delivered with the wrapper's own category, the call arguments exactly as passed, bound arguments first *)
+Definition wrapper_call_all_spec (w : ty) (nbound : nat) (args : list ty) : option (ty * list ty) :=
+  match rf w with RNone => None | _ => Some (w, repeat w nbound ++ args) end.
+(* [refwrap.invoke] *)
+Definition refwrap_call_all_spec (tconst : bool) (args : list ty) : option (ty * list ty) :=
+  Some ((if tconst then CLV else LV), args).
+(* [func.wrap.func.inv] / P0792: every argument initialises the parameter of the signature and is forwarded as
+   std::forward<ArgTypes>(args); the number of arguments is the number of parameters *)
+Fixpoint sig_args_spec (Ps args : list ty) : option (list ty) :=
+  match Ps, args with
+  | [], [] => Some []
+  | P :: Ps', a :: args' =>
+      if sig_accepts_spec P a then
+        match sig_args_spec Ps' args' with Some r => Some (sig_forward_spec P :: r) | None => None end
+      else None
+  | _, _ => None
+  end.
+Definition ipf_call_all_spec (Ps args : list ty) : option (ty * list ty) :=
+  match sig_args_spec Ps args with Some ys => Some (LV, ys) | None => None end.
+Definition fref_call_all_spec (fc : ty) (Ps args : list ty) : option (ty * list ty) :=
+  match sig_args_spec Ps args with Some ys => Some ((if cst fc then CLV else LV), ys) | None => None end.
+
+(* ================================================================================================ *)
+(** * results come back unchanged *)
+(* [func.invoke] invoke returns INVOKE(...) as invoke_result_t; [tuple.apply] apply returns decltype(auto); [refwrap.invoke],
+   [func.bind.front] ([func.require]/4: "returns the result of the call to the target"): type and category of the result
+   are those of the call expression *)
+Definition transparent_ret_spec (r : ty) : option ty := Some r.
+(* [func.wrap.func.inv] / P0792: INVOKE<R>: the result implicitly converted to R; the wrapper can be constructed only if
+   that conversion exists ([conv], [dcl.init.ref], one object type A): an object R from anything; A& from a non-const
+   lvalue; const A& from anything; A&& from a non-const rvalue; const A&& from any rvalue *)
+Definition ret_convertible_spec (R r : ty) : bool :=
+  match rf R, cst R, rf r, cst r with
+  | RNone, _, _, _ => true
+  | RL, false, RL, false => true
+  | RL, true, _, _ => true
+  | RR, false, RL, _ => false
+  | RR, false, _, false => true
+  | RR, true, RL, _ => false
+  | RR, true, _, _ => true
+  | _, _, _, _ => false
+  end.
+Definition sig_ret_spec (R r : ty) : option ty := if ret_convertible_spec R r then Some R else None.
+
+(* ================================================================================================ *)
+(** * [tuple.creation] tuple_cat with element types *)
+(* the result type: the element types of all operands, in order *)
+Definition tuple_cat_result_spec (ts : list toperand) : list ty := concat (map (fun o : toperand => map fst (snd o)) ts).
+(* element k of operand tp of declared type T is initialised with get<k>(std::forward<Tp>(tp)): an object element is
+   copied or moved, a reference element is bound; the call is ill-formed when one element cannot be initialised *)
+Definition cat_elem_spec (c : ty) (e : telem) : option (Z * built) :=
+  do g <- get_spec c (fst e); do b <- init_spec (fst e) g; Some (snd e, b).
+Definition tuple_cat_t_spec (ts : list toperand) : option (list (Z * built)) :=
+  do parts <- map_opt (fun o : toperand => map_opt (cat_elem_spec (fst o)) (snd o)) ts;
+  Some (concat parts).
+
+(* ================================================================================================ *)
+(** * [refwrap.const], [refwrap.helpers]: only lvalues can be wrapped *)
+(* reference_wrapper<T>(U&&): T& must bind to the argument and the argument must not be an rvalue;
+   ref(T&), ref(const T&&) = delete, cref(const T&), cref(const T&&) = delete *)
+Definition refwrap_ctor_wf_spec (tconst : bool) (a : ty) : bool :=
+  match rf a, cst a with
+  | RL, false => true
+  | RL, true => tconst
+  | _, _ => false
+  end.
+Definition ref_wf_spec (a : ty) : bool := match rf a with RL => true | _ => false end.
+Definition cref_wf_spec (a : ty) : bool := match rf a with RL => true | _ => false end.
+
+Definition refwrap_std_spec (x : Z) : Z * Z := (x + 1, Z.abs x mod 7).
